@@ -13,24 +13,27 @@ PROP = dict(
                "rounding.",
     level_note="Trusts the parser to deliver the numbers written in the deck (7 significant digits are printed, the table "
                "value is the printed number) and the finite-difference quotients (5-point stencils, points where the "
-               "one-sided and central quotients disagree are counted as 'near a kink' and not compared). The Oil/Gas/Water "
-               "PVT multiplexers and BlackOilFluidSystem do not link in this sandbox (empty co2tables.inc/h2tables.inc) and "
-               "are not driven.",
+               "one-sided and central quotients disagree are counted as 'near a kink' and not compared; random points where "
+               "the linearly extrapolated 1/B or mu leaves a factor 4 / 10 of the tabulated range are not used). The "
+               "Oil/Gas/Water PVT multiplexers only link in this sandbox (empty co2tables.inc/h2tables.inc) because the "
+               "harness defines the four CO2/H2 table-traits objects as weak zero-filled symbols; no value is read from "
+               "them. BlackOilFluidSystem is not driven.",
     technique="table-as-oracle runtime monitor + relational checks (continuity, inverse, AD vs finite differences)",
-    rule="one case = one deck with all six keywords, 1..3 PVT regions (12% of the later PVTO/PVTG regions left empty so that "
+    rule="one case = one deck with all six keywords (concrete classes) plus the same deck reduced to PVTW, one oil and one "
+         "gas keyword (multiplexers: approach, region count, node values / closed forms), 1..3 PVT regions (12% of the later PVTO/PVTG regions left empty so that "
          "they default to the previous region), unit system METRIC/FIELD/LAB by case index, 2..8 saturated nodes, 0..4 "
          "undersaturated rows per branch (35% one-row branches: master-table extension), PVTG with constant saturated-Rv "
          "stretches in 10% of the tables; evaluated for every region at all nodes, one random point between each pair of "
          "adjacent nodes, on the saturated line, on extended branches and at random points inside and up to 30% beyond the "
          "table range, each with double and Evaluation<double,3> arguments. Non-trivial: the deck is accepted, all six "
          "models initialise and at least 100 comparisons are made; distinct = distinct deck text.",
-    stages=[dict(harness="c14_pvt", flavour="plain", cases={Q: 40000, T: 3000000}, timeout={Q: 600, T: 5400}, omp_threads=1),
-            dict(id="c14_pvt_asan", harness="c14_pvt", flavour="asan", cases={Q: 4000, T: 200000}, timeout={Q: 600, T: 5400},
+    stages=[dict(harness="c14_pvt", flavour="plain", cases={Q: 100000, T: 3000000}, timeout={Q: 600, T: 5400}, omp_threads=1),
+            dict(id="c14_pvt_asan", harness="c14_pvt", flavour="asan", cases={Q: 5000, T: 150000}, timeout={Q: 600, T: 5400},
                  omp_threads=1)],
-    min_nontrivial={Q: 30000, T: 2000000},
-    coverage_floor=[("c14_pvt", "comparisons", {Q: 30000000, T: 2000000000}),
-                    ("c14_pvt", "ad_derivative_comparisons", {Q: 8000000, T: 600000000})],
-    not_decided=["dispatch of OilPvtMultiplexer/GasPvtMultiplexer/WaterPvtMultiplexer and BlackOilFluidSystem (do not link here)",
+    min_nontrivial={Q: 95000, T: 2900000},
+    coverage_floor=[("c14_pvt", "comparisons", {Q: 150000000, T: 4500000000}),
+                    ("c14_pvt", "ad_derivative_comparisons", {Q: 40000000, T: 1200000000})],
+    not_decided=["BlackOilFluidSystem (does not link here); CO2/H2/thermal/brine/humid approaches of the multiplexers",
                  "the values the models invent beyond a one-row undersaturated branch (master-table extension) are checked for "
                  "continuity at the saturated node, finiteness and derivative consistency only: no tabulated numbers exist there",
                  "values between branches (Rs between two PVTO nodes, p between two PVTG nodes) away from the saturated line are "
